@@ -540,7 +540,7 @@ func c05DecodeStats(k *c05Kind, st *format.Statistics, hasValues bool) (s c05Sta
 
 func runStatsFiles(ctx *core.Ctx, c05 bool) {
 	if c05 {
-		ctx.SetRule("files written with the typed GenericWriter from a 32-column struct (required+optional int32/int64/uint32/uint64/float/double/string/[]byte/FLBA(5)/FLBA(20)/be128/uuid/decimal int32,int64,FLBA(9)/bool), PageBufferSize(1) so each Write call is one page per column, all-null pages in every position, all-NaN pages, ColumnIndexSizeLimit 1..64, page versions 1 and 2, data page statistics on; plus files of dictionary-encoded columns of every order (c05DictRow: DictionaryMaxBytes 0/1..96 so chunks fall back to PLAIN mid-way, variable-width BYTE_ARRAY decimals with equal values in different widths) and WriteRowGroup copies (verbatim and re-encoded, the re-encoded copy's chunk statistics compared with the source's); read back through the page reader; recorded column index / offset index / chunk statistics / page header statistics checked against the values read (L1) and against the Lean mirrors of Bounds, of the chunk fold, of the whole chunk record and of the level model of nested pages (L2); distinct by file content, non-trivial = at least 2 pages")
+		ctx.SetRule("files written with the typed GenericWriter from a 32-column struct (required+optional int32/int64/uint32/uint64/float/double/string/[]byte/FLBA(5)/FLBA(20)/be128/uuid/decimal int32,int64,FLBA(9)/bool), PageBufferSize(1) so each Write call is one page per column, all-null pages in every position, all-NaN pages, ColumnIndexSizeLimit 1..64, page versions 1 and 2, data page statistics on; plus files of dictionary-encoded columns of every order (c05DictRow: DictionaryMaxBytes 0/1..96 so chunks fall back to PLAIN mid-way, variable-width BYTE_ARRAY decimals with equal values in different widths) and WriteRowGroup copies (verbatim and re-encoded, the re-encoded copy's chunk statistics compared with the source's), and files whose row groups are cut by Flush with >= 2 pages each and designed seams (c05MultiRow); every file with several row groups is also read through parquet.MultiRowGroup, whose column index (members' entries, order claim recomputed across the borders) must satisfy the same clauses (L1) and agree with the Lean mirror multiAsc/multiDesc (L2); read back through the page reader; recorded column index / offset index / chunk statistics / page header statistics checked against the values read (L1) and against the Lean mirrors of Bounds, of the chunk fold, of the whole chunk record and of the level model of nested pages (L2); distinct by file content, non-trivial = at least 2 pages")
 	} else {
 		ctx.SetRule("same generated files as C05/files: parquet.Search on the file's column index for every distinct value of every page (must return a page at or before the first page holding the value, whose bounds contain it) and for absent probes around the bounds; distinct by file content, non-trivial = at least 2 pages")
 	}
@@ -555,12 +555,18 @@ func runStatsFiles(ctx *core.Ctx, c05 bool) {
 		b.flush()
 		return
 	}
-	nfiles := ctx.Scale(2800, 64000)
+	// thorough budgets of C05 are sized for a shared box (both builds of the whole property in < 10 minutes)
+	nfiles := ctx.Scale(2800, 30000)
+	workers := 16
 	if !c05 {
 		// C06 searches every file per row group and once more through MultiRowGroup: fewer files in thorough
+<<<<<<< HEAD
 		nfiles = ctx.Scale(2800, 16000)
+=======
+		nfiles = ctx.Scale(2800, 24000)
+		workers = 8
+>>>>>>> w-stats
 	}
-	workers := 8
 	var wg sync.WaitGroup
 	for w := 0; w < workers; w++ {
 		wg.Add(1)
@@ -572,14 +578,17 @@ func runStatsFiles(ctx *core.Ctx, c05 bool) {
 				b.d = ctx.Driver()
 			}
 			if c05 {
-				for i := w; i < ctx.Scale(2, 16); i += workers {
+				for i := w; i < ctx.Scale(2, 8); i += workers {
 					c05BigFile(ctx, b, i)
 				}
-				for i := w; i < ctx.Scale(300, 8000); i += workers {
+				for i := w; i < ctx.Scale(300, 4000); i += workers {
 					c05HistFile(ctx, b, fmt.Sprintf("statshist#%d", i))
 				}
-				for i := w; i < ctx.Scale(240, 6000); i += workers {
+				for i := w; i < ctx.Scale(240, 3000); i += workers {
 					c05DictFile(ctx, b, fmt.Sprintf("statsdict#%d", i))
+				}
+				for i := w; i < ctx.Scale(400, 3000); i += workers {
+					c05MultiFile(ctx, b, fmt.Sprintf("statsmulti#%d", i))
 				}
 			}
 			for i := 0; i < nfiles/workers; i++ {
@@ -672,6 +681,7 @@ func c05CheckData(ctx *core.Ctx, b *c05Batch, f *c05File, data []byte, c05 bool,
 	allPages := make([][]c05ReadPage, len(c05Cols)) // C06: the pages of every row group one after the other
 	allShort := make([]bool, len(c05Cols))
 	allRead := make([]int, len(c05Cols))
+	members := make([][]c05MultiMember, len(c05Cols)) // C05: every column's chunks with their pages, for the MultiRowGroup view
 	for g, rg := range rgs {
 		chunks := rg.ColumnChunks()
 		md := pf.Metadata().RowGroups[g].Columns
@@ -711,6 +721,7 @@ func c05CheckData(ctx *core.Ctx, b *c05Batch, f *c05File, data []byte, c05 bool,
 			}
 			if c05 {
 				c05CheckChunk(ctx, b, &kk, col, f, data, chunks[ci], raw, &md[ci].MetaData, pages, detail)
+				members[ci] = append(members[ci], c05MultiMember{cc: chunks[ci], pages: pages})
 			} else {
 				short := raw != nil && len(raw.MinValues) != len(raw.NullPages)
 				c06CheckChunk(ctx, &kk, col, f, chunks[ci], short, pages, detail, "")
@@ -745,6 +756,33 @@ func c05CheckData(ctx *core.Ctx, b *c05Batch, f *c05File, data []byte, c05 bool,
 				return m
 			}
 			c06CheckChunk(ctx, &kk, col, f, mchunks[ci], allShort[ci], allPages[ci], detail, " multi-row-group")
+		}
+	}
+	if c05 && len(rgs) > 1 {
+		// C05: the statistics a reader gets for the same column through MultiRowGroup (entries of the members, order
+		// claim recomputed across the row group borders) must satisfy the property like a file's own column index
+		var mchunks []parquet.ColumnChunk
+		if p := c05Recover(func() { mchunks = parquet.MultiRowGroup(rgs...).ColumnChunks() }); p != nil || len(mchunks) != len(c05Cols) {
+			ctx.Fail("L1", "multi-row-group-failed", fmt.Sprint(p), base)
+			return
+		}
+		for ci, col := range c05Cols {
+			if (f.only != "" && f.only != col.name) || len(members[ci]) != len(rgs) || f.skip[col.name] {
+				continue
+			}
+			kk := *c05KindByName(col.kind)
+			kk.typ = mchunks[ci].Type()
+			detail := func(extra map[string]any) map[string]any {
+				m := map[string]any{"op": "file", "column": col.name, "kind": col.kind, "pages": f.colText(ci), "multi_row_group": true, "row_groups": len(rgs)}
+				for k, v := range base {
+					m[k] = v
+				}
+				for k, v := range extra {
+					m[k] = v
+				}
+				return m
+			}
+			c05CheckMultiView(ctx, b, &kk, col.kind, f.lim, mchunks[ci], members[ci], detail)
 		}
 	}
 	total := 0
